@@ -104,8 +104,8 @@ type C16Case struct {
 	Steps []C16Step
 }
 
-var c16Forms = []string{"default", "user", "path-rel", "path-abs", "path-slash", "path-nested", "path-user", "path-short"}
-var c16Priors = []string{"absent", "older", "unrelated", "base-file", "parent-file"}
+var c16Forms = []string{"default", "user", "path-rel", "path-abs", "path-slash", "path-nested", "path-user", "path-short", "path-rel-user", "path-dot", "path-dotdot-user"}
+var c16Priors = []string{"absent", "older", "unrelated", "base-file", "parent-file", "current-wrong-mode"}
 var c16Umasks = []int{0o022, 0o077, 0o000}
 
 func genC16(rt *rapid.T, c *Ctx) C16Case {
@@ -186,6 +186,15 @@ func checkC16(c *Ctx, cs C16Case) *Verdict {
 		case "path-user":
 			base = filepath.Join(root, "cust-user")
 			args = []string{"--user", "--path", base}
+		case "path-rel-user":
+			base = filepath.Join(proj, "custom", "reluser")
+			args = []string{"--user", "--path", "custom/reluser"}
+		case "path-dot":
+			base = proj
+			args = []string{"--path", "."}
+		case "path-dotdot-user":
+			base = filepath.Join(root, "cust-dd")
+			args = []string{"--path=../cust-dd", "--user"}
 		case "path-short":
 			base = filepath.Join(proj, "..", "cust-short")
 			args = []string{"-p", "../cust-short"}
@@ -217,6 +226,31 @@ func checkC16(c *Ctx, cs C16Case) *Verdict {
 			_ = os.Chmod(filepath.Join(skill, "SKILL.md"), 0o600)
 			_ = os.WriteFile(filepath.Join(skill, "references", "PATTERNS.md"), []byte("old patterns, longer than nothing\n"), 0o666)
 			_ = os.WriteFile(filepath.Join(skill, "extra.txt"), []byte("user file"), 0o644)
+		case "current-wrong-mode":
+			// an earlier installation with the CURRENT content but other permissions
+			if fi, err := os.Stat(base); err == nil && !fi.IsDir() {
+				prior = "as-is"
+				break
+			}
+			okw := true
+			i := 0
+			for rel := range exp {
+				p := filepath.Join(skill, rel)
+				src, err := os.ReadFile(filepath.Join(c.Snap.Src, "internal", "llmsetup", "skills", "kessoku-di", rel))
+				if err != nil || os.MkdirAll(filepath.Dir(p), 0o755) != nil || os.WriteFile(p, src, 0o600) != nil {
+					okw = false
+					break
+				}
+				mode := os.FileMode(0o600)
+				if i%2 == 1 {
+					mode = 0o755
+				}
+				_ = os.Chmod(p, mode)
+				i++
+			}
+			if !okw {
+				prior = "as-is"
+			}
 		case "unrelated":
 			if fi, err := os.Stat(base); err == nil && !fi.IsDir() {
 				prior = "as-is"
